@@ -2,7 +2,7 @@
 From RU Require Import Base.Prelude Base.Utf8 Model.AsciiSet Gen.Tables Model.PercentEncoding
   Model.HostT Model.UrlRecord Model.Parser Model.Setters Model.WF
   Proofs.ListN Proofs.C03_WF Proofs.C06_List Proofs.C06_WFI Proofs.C06_Tail Proofs.C06_Suffix Proofs.C06_Front
-  Proofs.C06_Port.
+  Proofs.C06_Port Proofs.C06_Steps.
 
 (* replace the bytes [a, b) of the serialization by x; everything from b on moves *)
 Definition cred_splice (u : url) (a b : N) (x : list N) (ue' : N) : url :=
@@ -347,4 +347,304 @@ Proof.
     { unfold cred_splice. rewrite <- app_assoc. do 2 f_equal. f_equal. unfold shift. lia. }
     split; [intros Z; contradiction|]. intros _.
     apply (set_pw dbg u p); assumption.
+Qed.
+
+(* ---------- set_username ---------- *)
+Lemma nskipn_cons_of_nnth l i c : nnth l i = Some c -> nskipn i l = c :: nskipn (i + 1) l.
+Proof.
+  intros H. replace (i + 1) with (1 + i) by lia. rewrite <- nskipn_nskipn.
+  rewrite <- (N.add_0_r i) in H. rewrite <- nnth_nskipn in H.
+  destruct (nskipn i l) as [|y r]; [discriminate|]. cbn in H. inversion H; subst. reflexivity.
+Qed.
+
+Lemma cs_skip_a u a b x ue' : a <= nlen (ser u) ->
+  nskipn a (ser (cred_splice u a b x ue')) = x ++ nskipn b (ser u).
+Proof.
+  intros H. cbn [cred_splice ser]. rewrite nskipn_app_ge by (rewrite nlen_nfirstn; lia).
+  rewrite nlen_nfirstn by lia. rewrite N.sub_diag. reflexivity.
+Qed.
+
+Lemma un_case dbg u b enc t : wf_b u = true -> host_text_ok u -> has_host u = true ->
+  let a := scheme_end u + 3 in
+  let x := enc ++ t in
+  let ue' := a + nlen enc in
+  let u' := cred_splice u a b x ue' in
+  a <= b -> b <= host_start u -> ue' <= shift b (a + nlen x) (host_start u) ->
+  userinfo_ok u' ->
+  (byte_eqb (ser u) (username_end u) 58 = true -> b = username_end u /\ t = []) ->
+  (byte_eqb (ser u) (username_end u) 58 = false -> byte_eqb (ser u') ue' 58 = false) ->
+  wf_b u' = true /\ host_text_ok u' /\ scheme u' = scheme u /\ password dbg u' = password dbg u
+  /\ host_str u' = host_str u /\ port u' = port u /\ same_back dbg u u'
+  /\ username dbg u' = Some enc.
+Proof.
+  intros W HT Hc a x ue' u' Hab Hb Hue2 HU Hpw1 Hpw0.
+  pose proof (has_host_authority u W Hc) as Ha. pose proof (wf_auth_facts u W Ha) as F.
+  pose proof (af_ue F); pose proof (af_hs F); pose proof (af_he F); pose proof (af_ps F); pose proof (af_len F).
+  assert (scheme_end u + 3 <= a) as Q0 by (subst a; lia).
+  assert (scheme_end u + 3 <= ue') as Q1 by (subst ue' a; lia).
+  destruct (splice_all dbg u a b x ue' W HT Hc Q0 Hab Hb Q1 Hue2 HU) as [W' HT' S' H' B' A' P' M'].
+  fold u' in W', HT', S', H', B', A', P', M'.
+  pose proof (cs_suf u a b x ue' W HT Hc Q0 Hab Hb Q1 Hue2) as SUF. fold u' in SUF.
+  splits; try assumption; try reflexivity.
+  - (* password *)
+    rewrite (password_piece dbg u' W'), (password_piece dbg u W).
+    assert (username_end u' < nlen (ser u')) as Hlt'.
+    { pose proof (wf_auth_facts u' W' A') as F'. destruct (HT' Hc) as (T1' & _).
+      pose proof (af_hs F'); pose proof (af_he F'); pose proof (af_ps F'); pose proof (af_len F'). lia. }
+    destruct (HT Hc) as (T1 & _).
+    rewrite (has_password_of_byte u' W' A' Hlt'), (has_password_of_byte u W Ha) by lia.
+    change (username_end u') with ue'.
+    destruct (byte_eqb (ser u) (username_end u) 58) eqn:E58.
+    + destruct (Hpw1 eq_refl) as [-> ->].
+      assert (nlen x = nlen enc) as Lx by (subst x; rewrite app_nil_r; reflexivity).
+      assert (ue' = a + nlen enc) as Eue' by reflexivity.
+      assert (ue' = shift (username_end u) (a + nlen x) (username_end u)) as Eue.
+      { unfold shift. lia. }
+      rewrite Eue. rewrite (suf_byte_eqb _ _ _ _ (username_end u) _ 58 SUF) by (try lia; reflexivity).
+      rewrite E58. do 2 f_equal. unfold piece. cbn [pidx].
+      assert (has_password_b u' = true) as Hp'.
+      { rewrite (has_password_of_byte u' W' A' Hlt'). change (username_end u') with ue'. rewrite Eue.
+        rewrite (suf_byte_eqb _ _ _ _ (username_end u) _ 58 SUF) by (try lia; reflexivity). exact E58. }
+      assert (has_password_b u = true) as Hp by (rewrite (has_password_of_byte u W Ha) by lia; exact E58).
+      rewrite Hp, Hp'. change (username_end u') with ue'.
+      change (host_start u') with (shift (username_end u) (a + nlen x) (host_start u)).
+      destruct (has_password_facts u W Hp) as (G1 & _).
+      replace (shift (username_end u) (a + nlen x) (host_start u) - 1 - (ue' + 1))
+        with (host_start u - 1 - (username_end u + 1)) by (unfold shift; lia).
+      apply (suf_piece _ _ _ _ (username_end u + 1) _ _ SUF); [lia | unfold shift; lia].
+    + rewrite (Hpw0 eq_refl). reflexivity.
+  - (* username reads back as the encoding *)
+    rewrite (username_eval dbg u' W'). f_equal. unfold piece. cbn [pidx]. rewrite A'.
+    change (scheme_end u') with (scheme_end u). change (username_end u') with ue'.
+    fold a. replace (ue' - a) with (nlen enc) by (subst ue'; lia).
+    unfold u'. rewrite cs_skip_a by (subst a; lia). subst x. rewrite <- app_assoc. apply nfirstn_app_exact.
+Qed.
+
+Lemma un_match_other {A} (new_empty : bool) (c : N) (k1 k2 k3 k4 k5 : A) : c <> 64 -> c <> 58 ->
+  (match new_empty, c with
+   | true, 64 => k1
+   | false, 64 => k2
+   | _, 58 => k3
+   | true, _ => k4
+   | false, _ => k5
+   end) = if new_empty then k4 else k5.
+Proof.
+  intros H1 H2. destruct new_empty; (destruct c as [|p]; [reflexivity|]);
+    do 7 (try (destruct p as [p|p|]; try reflexivity)); congruence.
+Qed.
+
+Lemma match64 {A} (c : N) (x y : A) : c <> 64 -> match c with 64 => x | _ => y end = y.
+Proof.
+  intros H. destruct c as [|p]; [reflexivity|].
+  do 7 (try (destruct p as [p|p|]; try reflexivity)); congruence.
+Qed.
+Lemma match5864 {A} (c : N) (x y : A) : c <> 58 -> c <> 64 -> match c with 58 | 64 => x | _ => y end = y.
+Proof.
+  intros H1 H2. destruct c as [|p]; [reflexivity|].
+  do 7 (try (destruct p as [p|p|]; try reflexivity)); congruence.
+Qed.
+
+Lemma un_record u a b x ue' s' added : s' = nfirstn a (ser u) ++ x ++ nskipn b (ser u) -> added = a + nlen x ->
+  mkUrl s' (scheme_end u) ue' (host_start u - b + added) (host_end u - b + added) (hosti u) (port u)
+        (path_start u - b + added) (option_map (shift b added) (query_start u))
+        (option_map (shift b added) (fragment_start u))
+  = cred_splice u a b x ue'.
+Proof. intros -> ->. reflexivity. Qed.
+
+Ltac un_rec_side Hcb :=
+  rewrite ?app_nil_r, ?nlen_app;
+  first [ reflexivity
+        | rewrite <- ?app_assoc, ?(nskipn_cons_of_nnth _ _ _ Hcb); reflexivity
+        | change (nlen [64]) with 1; lia ].
+
+Theorem set_username_ok dbg u un : wf_b u = true -> host_text_ok u ->
+  exists u' st, set_username dbg u un = Some (u', st)
+  /\ (st <> SOk -> u' = u)
+  /\ (st = SOk ->
+      wf_b u' = true /\ host_text_ok u' /\ scheme u' = scheme u /\ password dbg u' = password dbg u
+      /\ host_str u' = host_str u /\ port u' = port u /\ same_back dbg u u'
+      /\ exists cur, username dbg u = Some cur
+         /\ username dbg u' = Some (if list_eqb cur (utf8_encode un) then cur else userinfo_enc un)).
+Proof.
+  intros W HT. unfold set_username. destruct (chcp_eval u W) as (c & Ec & Hc). rewrite Ec. cbn [bindo].
+  destruct c.
+  { exists u, SErrUnit. split; [reflexivity|]. split; [reflexivity | discriminate]. }
+  specialize (Hc eq_refl). pose proof (has_host_authority u W Hc) as Ha. pose proof (wf_auth_facts u W Ha) as F.
+  pose proof (af_ue F); pose proof (af_hs F); pose proof (af_he F); pose proof (af_ps F); pose proof (af_len F).
+  destruct (HT Hc) as (T1 & T2 & T3).
+  destruct (wf_tail_offsets_ge u (path_start u) W ltac:(lia)) as [Gq Gf].
+  (* the debug assertion *)
+  assert ((if dbg then x <- u_slice u (scheme_end u) (scheme_end u + 3) ;; assert_o (list_eqb x s_css) else Some tt) = Some tt) as Ed.
+  { destruct dbg; [|reflexivity]. unfold u_slice. rewrite slice_o_some by lia. cbn [bindo].
+    pose proof (piece_scheme_sep u W) as PS. cbn [pidx] in PS. rewrite Ha in PS. unfold piece in PS. rewrite PS.
+    reflexivity. }
+  rewrite Ed. cbn [bindo]. clear Ed.
+  unfold u_slice. rewrite slice_o_some by lia. cbn [bindo].
+  set (cur := nfirstn (username_end u - (scheme_end u + 3)) (nskipn (scheme_end u + 3) (ser u))).
+  assert (username dbg u = Some cur) as Ecur.
+  { rewrite (username_eval dbg u W). unfold piece. cbn [pidx]. rewrite Ha. reflexivity. }
+  destruct (list_eqb cur (utf8_encode un)) eqn:Eeq.
+  { exists u, SOk. split; [reflexivity|]. split; [intros X; contradiction|]. intros _.
+    splits; try assumption; try reflexivity; try apply same_back_refl.
+    exists cur. split; [exact Ecur|]. rewrite Eeq. exact Ecur. }
+  unfold u_slice_from. rewrite slice_from_o_some by lia. cbn [bindo].
+  unfold push_encoded, truncate. fold (userinfo_enc un). set (enc := userinfo_enc un).
+  assert (nlen (nfirstn (scheme_end u + 3) (ser u) ++ enc) = scheme_end u + 3 + nlen enc) as El
+    by (rewrite nlen_app, nlen_nfirstn by lia; reflexivity).
+  rewrite El.
+  (* first byte after the username *)
+  assert (exists c, nnth (ser u) (username_end u) = Some c) as [c Hcb].
+  { destruct (nnth (ser u) (username_end u)) eqn:E; [eexists; reflexivity|].
+    unfold nnth in E. apply nth_error_None in E. unfold nlen in *. lia. }
+  rewrite (nskipn_cons_of_nnth _ _ _ Hcb).
+  set (rest := nskipn (username_end u + 1) (ser u)).
+  set (a := scheme_end u + 3).
+  (* the conclusion, once the spliced record is identified *)
+  assert (forall b t,
+    a <= b -> b <= host_start u -> a + nlen enc <= shift b (a + nlen (enc ++ t)) (host_start u) ->
+    userinfo_ok (cred_splice u a b (enc ++ t) (a + nlen enc)) ->
+    (byte_eqb (ser u) (username_end u) 58 = true -> b = username_end u /\ t = []) ->
+    (byte_eqb (ser u) (username_end u) 58 = false ->
+     byte_eqb (ser (cred_splice u a b (enc ++ t) (a + nlen enc))) (a + nlen enc) 58 = false) ->
+    let u' := cred_splice u a b (enc ++ t) (a + nlen enc) in
+    wf_b u' = true /\ host_text_ok u' /\ scheme u' = scheme u /\ password dbg u' = password dbg u
+    /\ host_str u' = host_str u /\ port u' = port u /\ same_back dbg u u'
+    /\ exists cur0, username dbg u = Some cur0
+       /\ username dbg u' = Some (if list_eqb cur0 (utf8_encode un) then cur0 else userinfo_enc un)) as Fin.
+  { intros b t Q1 Q2 Q3 HU P1 P0 u'.
+    destruct (un_case dbg u b enc t W HT Hc Q1 Q2 Q3 HU P1 P0) as (R1 & R2 & R3 & R4 & R5 & R6 & R7 & R8).
+    splits; try assumption. exists cur. split; [exact Ecur|]. rewrite Eeq. exact R8. }
+  assert (forall b t, a <= b -> b <= host_start u -> nlen (enc ++ t) = nlen enc + nlen t /\ nlen (ser u) >= b) as Aux.
+  { intros. rewrite nlen_app. lia. }
+  destruct (af_userinfo F) as [[U1 U2]|[(U1 & U2 & U3 & U4)|(U1 & U2 & U3 & U4)]].
+  - (* no userinfo before *)
+    assert (c <> 58) as C1 by (intros ->; apply byte_eqb_true_iff in Hcb; congruence).
+    assert (c <> 64) as C2 by (intros ->; apply byte_eqb_true_iff in Hcb; rewrite U1 in Hcb; congruence).
+    match goal with |- context [if a + nlen enc =? a then ?X else ?Y] =>
+      assert (X = ((nfirstn a (ser u) ++ enc) ++ c :: rest, username_end u, a + nlen enc)) as EX
+        by (clear - C1 C2; destruct c as [|p]; [reflexivity|];
+            do 7 (try (destruct p as [p|p|]; try reflexivity)); congruence);
+      assert (Y = ((nfirstn a (ser u) ++ enc) ++ [64] ++ c :: rest, username_end u, a + nlen enc + 1)) as EY
+        by (clear - C1 C2; destruct c as [|p]; [reflexivity|];
+            do 7 (try (destruct p as [p|p|]; try reflexivity)); congruence);
+      rewrite EX, EY; clear EX EY
+    end.
+    destruct (a + nlen enc =? a) eqn:Ene; cbn beta iota zeta.
+    + rewrite !adjust_ok by lia. rewrite !adjust_opt_ok by (destruct (query_start u), (fragment_start u); try exact I; lia).
+      cbn [bindo]. eexists; eexists; split; [reflexivity|]. split; [intros X; contradiction|]. intros _.
+      rewrite (un_record u a (username_end u) (enc ++ []) (a + nlen enc))
+        by un_rec_side Hcb.
+      assert (nlen enc = 0) as L0 by lia.
+      assert (a <= username_end u) as Q1 by (subst a; lia).
+      assert (a + nlen enc <= shift (username_end u) (a + nlen (enc ++ [])) (host_start u)) as Q3
+        by (unfold shift; rewrite app_nil_r; lia).
+      assert (scheme_end u + 3 <= a + nlen enc) as Q4 by (subst a; lia).
+      pose proof (cs_byte_hi u a (username_end u) (enc ++ []) (a + nlen enc) W HT Hc ltac:(subst a; lia) Q1 H0 Q4 Q3
+                    (username_end u) 58 ltac:(lia)) as BH.
+      unfold shift in BH. rewrite app_nil_r in BH.
+      replace (username_end u - username_end u + (a + nlen enc)) with (a + nlen enc) in BH by lia.
+      apply Fin; try assumption.
+      * left. change (username_end (cred_splice u a (username_end u) (enc ++ []) (a + nlen enc))) with (a + nlen enc).
+        change (host_start (cred_splice u a (username_end u) (enc ++ []) (a + nlen enc)))
+          with (shift (username_end u) (a + nlen (enc ++ [])) (host_start u)).
+        change (scheme_end (cred_splice u a (username_end u) (enc ++ []) (a + nlen enc))) with (scheme_end u).
+        splits; [unfold shift; rewrite app_nil_r; lia | subst a; lia |].
+        rewrite app_nil_r in *. rewrite BH. exact U2.
+      * intros X. congruence.
+      * intros _. rewrite app_nil_r in *. rewrite BH. exact U2.
+    + rewrite !adjust_ok by lia. rewrite !adjust_opt_ok by (destruct (query_start u), (fragment_start u); try exact I; lia).
+      cbn [bindo]. eexists; eexists; split; [reflexivity|]. split; [intros X; contradiction|]. intros _.
+      rewrite (un_record u a (username_end u) (enc ++ [64]) (a + nlen enc))
+        by un_rec_side Hcb.
+      assert (a <= username_end u) as Q1 by (subst a; lia).
+      assert (nlen (enc ++ [64]) = nlen enc + 1) as Lx by (rewrite nlen_app; reflexivity).
+      assert (a + nlen enc <= shift (username_end u) (a + nlen (enc ++ [64])) (host_start u)) as Q3
+        by (unfold shift; lia).
+      assert (scheme_end u + 3 <= a + nlen enc) as Q4 by (subst a; lia).
+      pose proof (cs_byte_mid u a (username_end u) (enc ++ [64]) (a + nlen enc) W HT Hc ltac:(subst a; lia) Q1 H0 Q4 Q3
+                    (nlen enc) 64 ltac:(lia)) as BM.
+      assert (byte_eqb (enc ++ [64]) (nlen enc) 64 = true) as B64 by apply (byte_eqb_app_at enc 64 []).
+      rewrite B64 in BM.
+      apply Fin; try assumption.
+      * right. right.
+        change (username_end (cred_splice u a (username_end u) (enc ++ [64]) (a + nlen enc))) with (a + nlen enc).
+        change (host_start (cred_splice u a (username_end u) (enc ++ [64]) (a + nlen enc)))
+          with (shift (username_end u) (a + nlen (enc ++ [64])) (host_start u)).
+        split; [exact BM | unfold shift; lia].
+      * intros X. congruence.
+      * intros _. apply (byte_eqb_excl _ _ 64 58); [lia | exact BM].
+  - (* a password follows the username *)
+    assert (c = 58) as -> by (apply byte_eqb_nnth in U2; congruence).
+    assert (a <= username_end u) as Q1 by (subst a; lia).
+    assert (a + nlen enc <= shift (username_end u) (a + nlen (enc ++ [])) (host_start u)) as Q3
+      by (unfold shift; rewrite app_nil_r; lia).
+    assert (scheme_end u + 3 <= a + nlen enc) as Q4 by (subst a; lia).
+    pose proof (cs_byte_hi u a (username_end u) (enc ++ []) (a + nlen enc) W HT Hc ltac:(subst a; lia) Q1 H0 Q4 Q3) as BH.
+    destruct (a + nlen enc =? a) eqn:Ene; cbn beta iota zeta;
+      rewrite !adjust_ok by lia; rewrite !adjust_opt_ok by (destruct (query_start u), (fragment_start u); try exact I; lia);
+      cbn [bindo]; (eexists; eexists; split; [reflexivity|]; split; [intros X; contradiction|]; intros _);
+      rewrite (un_record u a (username_end u) (enc ++ []) (a + nlen enc))
+        by un_rec_side Hcb;
+      (apply Fin; try assumption;
+       [ right; left;
+         change (username_end (cred_splice u a (username_end u) (enc ++ []) (a + nlen enc))) with (a + nlen enc);
+         change (host_start (cred_splice u a (username_end u) (enc ++ []) (a + nlen enc)))
+           with (shift (username_end u) (a + nlen (enc ++ [])) (host_start u));
+         splits;
+         [ pose proof (BH (username_end u) 58 ltac:(lia)) as B1; unfold shift in B1; rewrite app_nil_r in *;
+           replace (username_end u - username_end u + (a + nlen enc)) with (a + nlen enc) in B1 by lia;
+           rewrite B1; exact U2
+         | unfold shift; rewrite app_nil_r; lia
+         | pose proof (BH (host_start u - 1) 64 ltac:(lia)) as B1; unfold shift in *; rewrite app_nil_r in *;
+           replace (host_start u - username_end u + (a + nlen enc) - 1)
+             with (host_start u - 1 - username_end u + (a + nlen enc)) by lia;
+           rewrite B1; exact U4 ]
+       | intros _; split; reflexivity
+       | intros X; congruence ]).
+  - (* username only *)
+    assert (c = 64) as -> by (apply byte_eqb_nnth in U3; congruence).
+    destruct (a + nlen enc =? a) eqn:Ene; cbn beta iota zeta.
+    + rewrite !adjust_ok by lia. rewrite !adjust_opt_ok by (destruct (query_start u), (fragment_start u); try exact I; lia).
+      cbn [bindo]. eexists; eexists; split; [reflexivity|]. split; [intros X; contradiction|]. intros _.
+      rewrite (un_record u a (username_end u + 1) (enc ++ []) (a + nlen enc))
+        by un_rec_side Hcb.
+      assert (nlen enc = 0) as L0 by lia.
+      assert (a <= username_end u + 1) as Q1 by (subst a; lia).
+      assert (username_end u + 1 <= host_start u) as Q2 by lia.
+      assert (a + nlen enc <= shift (username_end u + 1) (a + nlen (enc ++ [])) (host_start u)) as Q3
+        by (unfold shift; rewrite app_nil_r; lia).
+      assert (scheme_end u + 3 <= a + nlen enc) as Q4 by (subst a; lia).
+      pose proof (cs_byte_hi u a (username_end u + 1) (enc ++ []) (a + nlen enc) W HT Hc ltac:(subst a; lia) Q1 Q2 Q4 Q3
+                    (host_start u) 58 ltac:(lia)) as BH.
+      unfold shift in BH. rewrite app_nil_r in BH.
+      replace (host_start u - (username_end u + 1) + (a + nlen enc)) with (a + nlen enc) in BH by lia.
+      apply Fin; try assumption.
+      * left. change (username_end (cred_splice u a (username_end u + 1) (enc ++ []) (a + nlen enc))) with (a + nlen enc).
+        change (host_start (cred_splice u a (username_end u + 1) (enc ++ []) (a + nlen enc)))
+          with (shift (username_end u + 1) (a + nlen (enc ++ [])) (host_start u)).
+        change (scheme_end (cred_splice u a (username_end u + 1) (enc ++ []) (a + nlen enc))) with (scheme_end u).
+        splits; [unfold shift; rewrite app_nil_r; lia | subst a; lia |].
+        rewrite app_nil_r in *. rewrite BH. exact T2.
+      * intros X. congruence.
+      * intros _. rewrite app_nil_r in *. rewrite BH. exact T2.
+    + rewrite !adjust_ok by lia. rewrite !adjust_opt_ok by (destruct (query_start u), (fragment_start u); try exact I; lia).
+      cbn [bindo]. eexists; eexists; split; [reflexivity|]. split; [intros X; contradiction|]. intros _.
+      rewrite (un_record u a (username_end u) (enc ++ []) (a + nlen enc))
+        by un_rec_side Hcb.
+      assert (a <= username_end u) as Q1 by (subst a; lia).
+      assert (a + nlen enc <= shift (username_end u) (a + nlen (enc ++ [])) (host_start u)) as Q3
+        by (unfold shift; rewrite app_nil_r; lia).
+      assert (scheme_end u + 3 <= a + nlen enc) as Q4 by (subst a; lia).
+      pose proof (cs_byte_hi u a (username_end u) (enc ++ []) (a + nlen enc) W HT Hc ltac:(subst a; lia) Q1 H0 Q4 Q3
+                    (username_end u) 64 ltac:(lia)) as BH.
+      unfold shift in BH. rewrite app_nil_r in BH.
+      replace (username_end u - username_end u + (a + nlen enc)) with (a + nlen enc) in BH by lia.
+      apply Fin; try assumption.
+      * right. right.
+        change (username_end (cred_splice u a (username_end u) (enc ++ []) (a + nlen enc))) with (a + nlen enc).
+        change (host_start (cred_splice u a (username_end u) (enc ++ []) (a + nlen enc)))
+          with (shift (username_end u) (a + nlen (enc ++ [])) (host_start u)).
+        rewrite app_nil_r in *. split; [rewrite BH; exact U3 | unfold shift; lia].
+      * intros X. congruence.
+      * intros _. rewrite app_nil_r in *. apply (byte_eqb_excl _ _ 64 58); [lia | rewrite BH; exact U3].
 Qed.
